@@ -46,6 +46,9 @@ CHECKS = {
     "C17": ("exploration", "runtime monitoring: side-effect observers around the real CLI (directory snapshot, leaf flight-recorder, audit hook on open/mkdir, strace sample) + exit-code oracle",
             "Generated `semantiva run` invocations — configurations invalid in each documented way, missing required context keys (decided by an order-sensitive reference key-flow analysis, with an early sink placed before the node that needs the key), malformed / over-cap run spaces, missing files, usage errors, and --validate / --dry-run / --run-space-dry-run — are executed in a confined working directory: no leaf may run, no sink or trace file may appear, and the exit code must be the documented one; executing invocations must start exactly the planned runs up to the first failing one and exit 0 iff all completed. Held = no deviation on the invocations observed.",
             "Missing run-space source file accepts exit 2 or 3 (documentation supports both readings); a missing key together with --dry-run accepts 0 or 3.", "DESIGN.md §4 C17"),
+    "C16": ("exploration", "runtime monitoring: invariant at a hook — sys.monitoring PY_RETURN probe on the node factory validates every node born anywhere (repository's own contract catalogue + independent mirror relation)",
+            "A sys.monitoring probe on _pipeline_node_factory (and the two factory constructors it never calls) queues every node constructed anywhere in the workload; after the constructing call returns, the repository's own validate_component runs on the generated node class, the generated processor class and the wrapped classes (no error-level diagnostic allowed), and the node's declared input/output types and created keys are compared with values computed independently from the component table and the wrapping. Workload: a 612-configuration enumeration (every component kind x every wrapping factory x nested combinations x parameter placements) plus generated pipelines run through Pipeline.process, inspection and `semantiva inspect`. Held = no error diagnostic and no mirror deviation on the nodes observed.",
+            "Expected types/keys come from vlib/nodespace.py + vlib/refmodel.COMPONENTS. A _ContextDataProcessorNode's inner processor keys are a don't-care (it runs without a context observer).", "DESIGN.md §4 C16"),
 }
 
 NOT_BUILT_REASON = "check not implemented yet in this round (work in progress; see DESIGN.md §4 for the planned monitor)"
